@@ -119,6 +119,13 @@ class Spec:
             yield {"label": "perturb" if j % 3 != 2 else "perturb-after-sync", "prog_seed": base + i, "gen": self.gen, "pattern": {"p": "plain"},
                    "opts": {"perturb": pert}}
             i += 1
+        n_exec = n.get("exec", (3 if tier == "quick" else 12) if n.get("plain", 0) > 0 else 0)
+        for j in range(n_exec):
+            # every invocation is a cold start in a NEW interpreter (exec, not fork) with its own hash seed: nothing that lives only in
+            # one process - string hashes, object identities, module state - may leak into what is recorded
+            yield {"label": "plain-new-interpreter-per-invocation", "prog_seed": base + i, "gen": dict(self.gen, max_ops=min(self.gen.get("max_ops", 10), 7)),
+                   "pattern": {"p": "plain"}, "opts": {"exec_child": True, "hash_seed_base": 100 + 17 * j}, "max_inv": 14}
+            i += 1
         for j in range(n.get("k1", 0)):
             yield {"label": "k1-real-polling", "prog_seed": base + i, "gen": self.small_gen, "pattern": {"p": "plain"},
                    "opts": {"k": 1.0, "poll_div": 1.0}}
@@ -253,7 +260,7 @@ class Spec:
     def main(self, module):
         generic = (" Generic slices of every world check with random programs: every third uninterrupted and every third random-crash run is served "
                    "by one warm process (reused sandbox); perturbed schedules (random LINE-level yields, PCT-like thread priorities, after-sync "
-                   "descheduling)" + ("; two-crash enumeration (first crash x crash points of the following invocations) on tiny programs."
+                   "descheduling); a few runs in which every invocation is a cold start in a new interpreter with its own hash seed" + ("; two-crash enumeration (first crash x crash points of the following invocations) on tiny programs."
                                       if self.level == "fault_enumeration" else "."))
         rc = harness.main_for(module, self.prop, self.level, self.rule + generic, ASSUME, self.minima)
         sys.exit(rc)
